@@ -1507,6 +1507,118 @@ func c18r15(c *Ctx, r *Report) {
 	r.floor("returns of History.previous / next", n, 2)
 }
 
+// c19r14: trimPath removes the leading `./` of a walked path. What follows a removed `./` can be further
+// separators (`.//d` — fastwalk only cleans the END of a root), and they have to go with it, or the relative
+// path turns into an absolute one (D77: `--walker-root .//d` printed `/d/f`, a path that does not exist, and
+// the symlink test ran stat on it).
+func c19r14(c *Ctx, r *Report) {
+	l := c.L
+	r.rule("C19-R14", "D (separators exposed by the strip are removed with it)", "P1",
+		"in trimPath, besides the test of the SECOND byte with os.IsPathSeparator (the `./` recognition) there is a loop that tests the FIRST byte with os.IsPathSeparator and drops it, reachable after a `./` was removed",
+		"a root spelled with a doubled separator is listed as absolute paths that do not exist")
+	fn := l.Fn("fzf", "trimPath")
+	if fn == nil {
+		r.unest("anchors", token.NoPos, nil, "anchor trimPath", "cannot resolve")
+		return
+	}
+	at := map[int64]int{}
+	eachInstr(fn, func(in ssa.Instruction) {
+		call, ok := in.(*ssa.Call)
+		if !ok || calleeName(call.Common()) != "os.IsPathSeparator" {
+			return
+		}
+		a := stripConv(call.Call.Args[0])
+		if u, ok := a.(*ssa.UnOp); ok && u.Op == token.MUL {
+			if ia, ok := u.X.(*ssa.IndexAddr); ok {
+				if k, isK := constIntVal(ia.Index); isK {
+					at[k]++
+				}
+			}
+		}
+	})
+	r.check(at[1] > 0 && at[0] > 0, relName(fn)+":separators behind a removed `./` are removed too", fn.Pos(), fn,
+		fmt.Sprintf("separator tests of byte 1: %d, of byte 0: %d", at[1], at[0]),
+		"only the byte after the dot is tested: what follows a removed `./` is kept even if it is a separator, and the result becomes an absolute path")
+}
+
+// c19r15: the hidden test looks at the base name of a directory: a leading dot. The two names that begin
+// with a dot without being hidden, `.` and `..`, are both exempt (D78: only `..` was: `--walker-root d/.` listed
+// nothing, because the root's base name `.` was taken for a hidden directory).
+func c19r15(c *Ctx, r *Report) {
+	l := c.L
+	r.rule("C19-R15", "A (`.` and `..` are not hidden directories)", "P1",
+		"in the walk callback of Reader.readFiles, a SkipDir that is returned under `base[0] == '.'` is also under base != \".\" and base != \"..\"",
+		"a root spelled `dir/.` is pruned as a whole: an empty list and exit status 1 for a directory full of files")
+	rf := l.Fn("fzf", "(*Reader).readFiles")
+	if rf == nil {
+		r.unest("anchors", token.NoPos, nil, "anchor Reader.readFiles", "cannot resolve")
+		return
+	}
+	n := 0
+	for _, fn := range withClosures(rf) {
+		pc := pathConds(fn)
+		eachInstr(fn, func(in ssa.Instruction) {
+			ret, ok := in.(*ssa.Return)
+			if !ok || len(ret.Results) != 1 {
+				return
+			}
+			if u, isLoad := retResult(ret, 0).(*ssa.UnOp); !isLoad || u.Op != token.MUL {
+				return
+			} else if g, isG := u.X.(*ssa.Global); !isG || g.Name() != "SkipDir" {
+				return
+			}
+			// the prune that is taken BECAUSE of the leading dot: every path to it has base[0] == '.'
+			isDot := func(atom ssa.Value, val bool) bool {
+				b, ok := atom.(*ssa.BinOp)
+				if !ok {
+					return false
+				}
+				if k, isK := constIntVal(b.Y); isK && k == '.' && (b.Op == token.EQL) == val {
+					switch b.X.(type) {
+					case *ssa.Index, *ssa.Lookup:
+						return true
+					}
+				}
+				return false
+			}
+			if holds, reach := pc.Implies(ret.Block(), func(lits []Lit) bool { return hasLit(lits, isDot) }); !holds || !reach {
+				return
+			}
+			for _, dj := range pc.At(ret.Block()) {
+				dot := false
+				names := map[string]bool{}
+				for _, lt := range dj {
+					b, ok := lt.Atom.(*ssa.BinOp)
+					if !ok {
+						continue
+					}
+					if k, isK := constIntVal(b.Y); isK && k == '.' && (b.Op == token.EQL) == lt.Val {
+						switch b.X.(type) {
+						case *ssa.Index, *ssa.Lookup:
+							dot = true
+						}
+					}
+					if bt, isB := b.Y.Type().Underlying().(*types.Basic); isB && bt.Info()&types.IsString != 0 {
+						// a comparison of the BASE NAME (the result of filepath.Base), not of the whole path
+						if bc, isCall := b.X.(*ssa.Call); isCall && calleeName(bc.Common()) == "path/filepath.Base" {
+							if sv, isK := constString(b.Y); isK && (b.Op == token.NEQ) == lt.Val {
+								names[sv] = true
+							}
+						}
+					}
+				}
+				if !dot {
+					continue
+				}
+				n++
+				r.check(names["."] && names[".."], fmt.Sprintf("%s:hidden-directory prune #%d exempts `.` and `..`", relName(rf), n), ret.Pos(), fn,
+					"not taken for the names . and ..", "a directory whose base name is `.` (a root spelled dir/.) is pruned as hidden")
+			}
+		})
+	}
+	r.floor("prunes under a leading-dot test", n, 1)
+}
+
 // round9 runs the round-9 rules of a property (own and shared).
 func round9(c *Ctx, r *Report, prop string) {
 	switch prop {
@@ -1559,6 +1671,9 @@ func round9(c *Ctx, r *Report, prop string) {
 	case "C17":
 		c17r24(c, r)
 		c17r25(c, r)
+	case "C19":
+		c19r14(c, r)
+		c19r15(c, r)
 	case "C18":
 		c18r13(c, r)
 		c18r14(c, r)
